@@ -113,6 +113,10 @@ def cells(tier: str) -> dict:
     add("R6[wres,start13:00]", lambda: noon("wres"), 9)
     for kind in ("default", "lunch", "leave", "vacation"):
         add(f"R8[{kind}]", lambda kind=kind: R8(kind), 4, {"s0": (0, 120)})
+    if tier == "quick":
+        keep = [n for n in out if "narrow" in n] + ["R1x2", "R1x2[eff=0.5]", "R1x2[res=900]", "R2[gap=None]", "R5containers", "R6[dres]", "R6[wres]",
+                                                      "R6[dgroup]", "R6[dres,start13:00]", "R8[default]", "R8[lunch]"]
+        out = {n: out[n] for n in keep}
     return out
 
 
